@@ -7,6 +7,8 @@ package vgirpc
 
 import (
 	"encoding/hex"
+	"reflect"
+	"unsafe"
 	"encoding/json"
 	"fmt"
 	"os"
@@ -175,4 +177,16 @@ func verifRunUntilBlocked(f func()) bool {
 	case <-time.After(300 * time.Millisecond):
 		return true
 	}
+}
+
+// verifSetField stores v into the field of *ptr reached by the dotted path, even
+// when it is unexported or belongs to another package. Natively this goes through
+// reflect + unsafe.
+func verifSetField(ptr interface{}, path string, v interface{}) {
+	cur := reflect.ValueOf(ptr).Elem()
+	for _, name := range strings.Split(path, ".") {
+		cur = cur.FieldByName(name)
+	}
+	cur = reflect.NewAt(cur.Type(), unsafe.Pointer(cur.UnsafeAddr())).Elem()
+	cur.Set(reflect.ValueOf(v))
 }
